@@ -1,0 +1,13 @@
+//go:build verif
+
+package phase2
+
+// VerifPivotsFn, when set, receives the number of pivots the network simplex loop made and its budget.
+// Only compiled with the verif build tag.
+var VerifPivotsFn func(nodes, pivots, maxitr int)
+
+func verifPivots(nodes, pivots, maxitr int) {
+	if VerifPivotsFn != nil {
+		VerifPivotsFn(nodes, pivots, maxitr)
+	}
+}
